@@ -2,7 +2,7 @@
    The model is Raft/Core.v (every handler of pkg/raft/raft transcribed, each log.Fatalf an explicit outcome), tied to the
    Go code on every run by the correspondence of Raft/Wire.v.run_case with the real `core` objects. *)
 From Coq Require Import List NArith ZArith.
-From BLB Require Import Lib.LTS Raft.Core Raft.Wire Raft.NodeElect Raft.NodeMono Raft.NodeConf Raft.Election Raft.ElectionFixed Raft.ElectionExample Raft.Mechanisms C02.Proofs.
+From BLB Require Import Lib.LTS Raft.Core Raft.Wire Raft.NodeElect Raft.NodeMono Raft.NodeLeader Raft.NodeConf Raft.Election Raft.ElectionFixed Raft.ElectionExample Raft.Mechanisms C02.Proofs.
 Import ListNotations.
 Open Scope N_scope.
 
@@ -86,6 +86,23 @@ Theorem commit_monotone :
 Proof. exact commit_monotone_lemma. Qed.
 Print Assumptions commit_monotone.
 
+(* [FULL] leader_appends_only and match_index_monotone, for every node that is leader and every event after which it is still in the
+   same term (delivery of any message, tick, proposal, snapshot, AddNode of a node that is not yet a peer): the new log is
+   the old log minus a compacted prefix plus appended entries, so a leader never truncates or overwrites an entry of its
+   own log, and the matchIndex of every peer that was in the table is still there and has not decreased *)
+Theorem leader_appends_only_and_match_index_monotone :
+  forall s ev st s',
+    n_role s = Leader -> p_term (n_p s') = p_term (n_p s) ->
+    match ev with
+    | ERestart | ERemoveNode _ => False
+    | EAddNode m _ => peer_get m (l_peers s) = None
+    | _ => True
+    end ->
+    run_event s ev = Ret (st, s') ->
+    log_ext (p_log (n_p s)) (p_log (n_p s')) /\ peers_mono (l_peers s) (l_peers s').
+Proof. exact leader_step. Qed.
+Print Assumptions leader_appends_only_and_match_index_monotone.
+
 (* [PARTIAL] mechanism 1 of clause 3, canGrantVote: a vote is granted only if the voter has not voted for another candidate in this term
    and the candidate's last log term and index are at least the voter's *)
 Theorem vote_granted_only_to_up_to_date_candidate :
@@ -137,6 +154,6 @@ Print Assumptions stale_term_ignored.
              identical up to that index (invariants L1, L2, LM, AM of DESIGN appendix A.1; needs election_safety);
    clause 3  leader_completeness : an entry, once committed, is in the log (or snapshot) of every later leader;
    clause 4  state_machine_safety : no two nodes hand different entries at the same index to TakeNewlyCommitted;
-   commit_le_last, leader_appends_only, match_index_monotone (checked by monitors only);
+   commit_le_last (refuted by F10 on the current code: C07 restart_storage_consistent_refuted; checked by a monitor);
    and the extension of election_safety to AddNode/RemoveNode (quorums of Members and Members +/- 1 intersect).
    On the real code all four clauses are evaluated after every event by the monitors of the Go simulation. *)
